@@ -17,6 +17,11 @@ if args[:1] == ["-j"]:
 seeds = args or sorted(d for d in os.listdir(os.path.join(ROOT, "seeded")) if os.path.isfile(os.path.join(ROOT, "seeded", d, "patch.diff")))
 
 
+# run from a snapshot of /verif so that work going on in /verif meanwhile cannot disturb the matrix
+SNAP = tempfile.mkdtemp(prefix="xs-snap-", dir="/tmp")
+subprocess.run(["rsync", "-a", "--exclude", ".git", "--exclude", "replays", "--exclude", "evidence", ROOT + "/", SNAP + "/"], check=True)
+
+
 def one(seed):
     base = tempfile.mkdtemp(prefix="xs-%s-" % seed, dir="/tmp")
     wt = os.path.join(base, "wt")
@@ -27,7 +32,7 @@ def one(seed):
         env = dict(os.environ, VERIF_REPO=wt, VERIF_OUT=os.path.join(base, "out"), VERIF_SCRATCH_BASE=base)
         for cid in ids:
             t = time.time()
-            p = subprocess.run([os.path.join(ROOT, "bin", "check"), cid, "--tier", "quick"], env=env,
+            p = subprocess.run([os.path.join(SNAP, "bin", "check"), cid, "--tier", "quick"], env=env,
                                stdout=subprocess.PIPE, stderr=subprocess.STDOUT, text=True)
             row[cid] = (p.returncode, round(time.time() - t))
             print(seed, cid, p.returncode, flush=True)
@@ -44,4 +49,5 @@ out = ["# seeded change x quick check (rc: 1 alarm, 0 quiet, 2 inconclusive)", "
 for s in seeds:
     out.append("| %s | " % s + " | ".join(("**1**" if rows[s].get(c, ("-",))[0] == 1 else str(rows[s].get(c, ("-",))[0])) for c in ids) + " |")
 open(os.path.join(ROOT, "seeded", "MATRIX.md"), "w").write("\n".join(out) + "\n")
+shutil.rmtree(SNAP, ignore_errors=True)
 print("\n".join(out))
